@@ -55,7 +55,7 @@ structure CancelView (s : St) : Prop where
 def Kept (s : St) (f : Nat) : Prop :=
   f ∈ s.done ∨ (∃ j ∈ s.jobs, j.fut = f) ∨ (∃ nj, s.submitting = some nj ∧ nj.fut = f) ∨
   (∃ b, (f, CSt.scanned none b) ∈ s.cancelling) ∨ (f, CSt.delegated true) ∈ s.cancelling ∨
-  (∃ d b, (f, CSt.scanned (some d) b) ∈ s.cancelling ∧ d ∈ s.delCancelled)
+  (∃ d b, (f, CSt.scanned (some d) b) ∈ s.cancelling ∧ d ∈ s.delCancelled) ∨ (∃ d, (f, d) ∈ s.marks)
 
 
 theorem not_key_of_cancellingF {s : St} {f : Nat} (h : cancellingF s f = false) : ∀ p ∈ s.cancelling, p.1 ≠ f := by
@@ -143,6 +143,7 @@ theorem csub_step (s : St) (a : Act) (s' : St) (hi : CSub s) (h : step s a = som
   | cbPolicy d r => simp only [step] at h; (repeat' split at h) <;> first | (cases h; exact hi) | cases h
   | cbRetry d => simp only [step] at h; (repeat' split at h) <;> first | (cases h; exact hi) | cases h
   | cbFinal d => simp only [step] at h; (repeat' split at h) <;> first | (cases h; exact hi) | cases h
+  | cbMark f d inl => simp only [step] at h; (repeat' split at h) <;> first | (cases h; exact hi) | cases h
   | tick t => simp only [step] at h; (repeat' split at h) <;> first | (cases h; exact hi) | cases h
 
 
@@ -243,6 +244,11 @@ theorem cview_step (s : St) (a : Act) (s' : St) (i1 : Inv1 s) (cs : CSub s) (hv 
       · cases h; exact cview_jobs_sub hv rfl rfl (fun _ hd => hd) (erase_keeps j)
       · cases h
     · cases h
+  | cbMark f d inl =>
+    simp only [step] at h
+    (repeat' split at h) <;> first
+      | (cases h; exact cview_jobs_sub hv rfl rfl (fun _ hd => hd) same_keeps)
+      | cases h
   | cbPolicy d r =>
     simp only [step] at h
     split at h
@@ -422,8 +428,9 @@ theorem kept_transfer {s s' : St} {f : Nat} (hk : Kept s f)
     (hjobs : ∀ j ∈ s.jobs, j.fut = f → (∃ j' ∈ s'.jobs, j'.fut = f) ∨ Kept s' f)
     (hsub : ∀ nj, s.submitting = some nj → nj.fut = f → Kept s' f)
     (hc : ∀ c, (f, c) ∈ s.cancelling → (f, c) ∈ s'.cancelling ∨ Kept s' f)
-    (hdc : ∀ d ∈ s.delCancelled, d ∈ s'.delCancelled) : Kept s' f := by
-  rcases hk with h | ⟨j, hj, hjf⟩ | ⟨nj, hnj, hf⟩ | ⟨b, hb⟩ | h | ⟨d, b, hb, hd⟩
+    (hdc : ∀ d ∈ s.delCancelled, d ∈ s'.delCancelled)
+    (hm : ∀ d, (f, d) ∈ s.marks → (f, d) ∈ s'.marks ∨ Kept s' f) : Kept s' f := by
+  rcases hk with h | ⟨j, hj, hjf⟩ | ⟨nj, hnj, hf⟩ | ⟨b, hb⟩ | h | ⟨d, b, hb, hd⟩ | ⟨d, hd⟩
   · exact Or.inl (hdone f h)
   · rcases hjobs j hj hjf with h | h
     · exact Or.inr (Or.inl h)
@@ -436,7 +443,10 @@ theorem kept_transfer {s s' : St} {f : Nat} (hk : Kept s f)
     · exact Or.inr (Or.inr (Or.inr (Or.inr (Or.inl h))))
     · exact h
   · rcases hc _ hb with h | h
-    · exact Or.inr (Or.inr (Or.inr (Or.inr (Or.inr ⟨d, b, h, hdc d hd⟩))))
+    · exact Or.inr (Or.inr (Or.inr (Or.inr (Or.inr (Or.inl ⟨d, b, h, hdc d hd⟩)))))
+    · exact h
+  · rcases hm d hd with h | h
+    · exact Or.inr (Or.inr (Or.inr (Or.inr (Or.inr (Or.inr ⟨d, h⟩)))))
     · exact h
 
 theorem kept_job {s : St} {f : Nat} {j : Job} (hj : j ∈ s.jobs) (hf : j.fut = f) : Kept s f := Or.inr (Or.inl ⟨j, hj, hf⟩)
@@ -447,9 +457,59 @@ theorem cancelling_entry {s : St} {f : Nat} (h : cancellingF s f = true) : ∃ c
   have : p.1 = f := by simpa using he
   exact ⟨p.2, by rw [← this]; exact hp⟩
 
-/-- the no-lost-future step: under the delegate contract `Disj`, every handed-out future stays accounted for -/
-theorem kept_step (s : St) (a : Act) (s' : St) (i1 : Inv1 s) (hv : CancelView s) (hdj : Disj s)
+/-- owed `_me_delegate_cancelled` calls are for delegates that really are cancelled -/
+def MarksOk (s : St) : Prop := ∀ p ∈ s.marks, p.2 ∈ s.delCancelled
+
+theorem marksok_step (s : St) (a : Act) (s' : St) (hi : MarksOk s) (h : step s a = some s') : MarksOk s' := by
+  have hmono := delCancelled_mono s a s' h
+  cases a with
+  | cbCancelled d =>
+    simp only [step] at h
+    split at h
+    · split at h
+      · rename_i hdc
+        cases h
+        intro p hp
+        simp only [List.mem_append, List.mem_singleton] at hp
+        rcases hp with hp | hp
+        · exact hi p hp
+        · subst hp; exact hdc
+      · cases h
+    · cases h
+  | cbMark f d inl =>
+    simp only [step] at h
+    (repeat' split at h) <;> first
+      | (cases h; intro p hp; first | exact hi p (List.mem_of_mem_erase hp) | (simp only; exact hi p (List.mem_of_mem_erase hp)))
+      | cases h
+  | submit f => simp only [step] at h; (repeat' split at h) <;> first | (cases h; exact hi) | cases h
+  | submitNow j => simp only [step] at h; (repeat' split at h) <;> first | (cases h; exact hi) | cases h
+  | submitApp => simp only [step] at h; (repeat' split at h) <;> first | (cases h; exact hi) | cases h
+  | discard j => simp only [step] at h; (repeat' split at h) <;> first | (cases h; exact hi) | cases h
+  | ddone d c =>
+    simp only [step] at h
+    split at h
+    · cases h; intro p hp; simp only; split
+      · exact List.mem_append_left _ (hi p hp)
+      · exact hi p hp
+    · cases h
+  | cbPolicy d r => simp only [step] at h; (repeat' split at h) <;> first | (cases h; exact hi) | cases h
+  | cbRetry d => simp only [step] at h; (repeat' split at h) <;> first | (cases h; exact hi) | cases h
+  | cbFinal d => simp only [step] at h; (repeat' split at h) <;> first | (cases h; exact hi) | cases h
+  | cancelScan f => simp only [step] at h; (repeat' split at h) <;> first | (cases h; exact hi) | cases h
+  | cancelDel f b =>
+    simp only [step] at h
+    (repeat' split at h) <;> first
+      | (cases h; exact hi)
+      | (cases h; intro p hp; exact List.mem_append_left _ (hi p hp))
+      | cases h
+  | cancelEnd f => simp only [step] at h; (repeat' split at h) <;> first | (cases h; exact hi) | cases h
+  | tick t => simp only [step] at h; (repeat' split at h) <;> first | (cases h; exact hi) | cases h
+
+/-- the no-lost-future step: every handed-out future stays accounted for -/
+theorem kept_step (s : St) (a : Act) (s' : St) (i1 : Inv1 s) (hv : CancelView s) (mk : MarksOk s)
     (hi : ∀ f ∈ s.submitted, Kept s f) (h : step s a = some s') : ∀ f ∈ s'.submitted, Kept s' f := by
+  have keepm : ∀ {s'' : St} {f : Nat}, s''.marks = s.marks → ∀ d, (f, d) ∈ s.marks → (f, d) ∈ s''.marks ∨ Kept s'' f :=
+    fun e d hd => Or.inl (by rw [e]; exact hd)
   cases a with
   | submit f0 =>
     simp only [step] at h
@@ -460,7 +520,7 @@ theorem kept_step (s : St) (a : Act) (s' : St) (i1 : Inv1 s) (hv : CancelView s)
       simp only [List.mem_append, List.mem_singleton] at hf
       rcases hf with hf | hf
       · exact kept_transfer (hi f hf) (fun _ h => h) (fun j hj hjf => Or.inl ⟨j, List.mem_append_left _ hj, hjf⟩)
-          (fun nj hnj hnf => Or.inr (Or.inr (Or.inl ⟨nj, hnj, hnf⟩))) (fun c hc => Or.inl hc) (fun _ h => h)
+          (fun nj hnj hnf => Or.inr (Or.inr (Or.inl ⟨nj, hnj, hnf⟩))) (fun c hc => Or.inl hc) (fun _ h => h) (keepm rfl)
       · subst hf; exact kept_job (List.mem_append_right _ (List.mem_singleton.mpr rfl)) rfl
   | submitNow j =>
     simp only [step] at h
@@ -472,7 +532,7 @@ theorem kept_step (s : St) (a : Act) (s' : St) (i1 : Inv1 s) (hv : CancelView s)
         cases h
         intro f hf
         refine kept_transfer (hi f hf) (fun _ h => h) ?_ (fun nj hnj hnf => Or.inr (Or.inr (Or.inl ⟨nj, hnj, hnf⟩)))
-          (fun c hc => Or.inl hc) (fun _ h => h)
+          (fun c hc => Or.inl hc) (fun _ h => h) (keepm rfl)
         intro x hx hxf
         by_cases e : x = j
         · subst e; subst hxf; exact Or.inr (Or.inl hd)
@@ -480,7 +540,7 @@ theorem kept_step (s : St) (a : Act) (s' : St) (i1 : Inv1 s) (hv : CancelView s)
       · cases h
         intro f hf
         refine kept_transfer (hi f hf) (fun _ h => h) ?_ (fun nj hnj _ => by rw [hnone] at hnj; cases hnj)
-          (fun c hc => Or.inl hc) (fun _ h => h)
+          (fun c hc => Or.inl hc) (fun _ h => h) (keepm rfl)
         intro x hx hxf
         by_cases e : x = j
         · subst e; exact Or.inr (Or.inr (Or.inr (Or.inl ⟨_, rfl, hxf⟩)))
@@ -493,7 +553,7 @@ theorem kept_step (s : St) (a : Act) (s' : St) (i1 : Inv1 s) (hv : CancelView s)
       cases h
       intro f hf
       refine kept_transfer (hi f hf) (fun _ h => h) (fun x hx hxf => Or.inl ⟨x, List.mem_append_left _ hx, hxf⟩) ?_
-        (fun c hc => Or.inl hc) (fun _ h => h)
+        (fun c hc => Or.inl hc) (fun _ h => h) (keepm rfl)
       intro nj' hnj' hnf
       rw [hnj] at hnj'; cases hnj'
       exact kept_job (List.mem_append_right _ (List.mem_singleton.mpr rfl)) hnf
@@ -504,7 +564,7 @@ theorem kept_step (s : St) (a : Act) (s' : St) (i1 : Inv1 s) (hv : CancelView s)
     · cases h
       intro f hf
       refine kept_transfer (hi f hf) (fun g hg => by simp only; split <;> simp [hg]) ?_
-        (fun nj hnj hnf => Or.inr (Or.inr (Or.inl ⟨nj, hnj, hnf⟩))) (fun c hc => Or.inl hc) (fun _ h => h)
+        (fun nj hnj hnf => Or.inr (Or.inr (Or.inl ⟨nj, hnj, hnf⟩))) (fun c hc => Or.inl hc) (fun _ h => h) (keepm rfl)
       intro x hx hxf
       by_cases e : x = j
       · subst e; subst hxf; exact Or.inr (Or.inl (by simp only; split <;> simp_all))
@@ -517,64 +577,76 @@ theorem kept_step (s : St) (a : Act) (s' : St) (i1 : Inv1 s) (hv : CancelView s)
       intro f hf
       exact kept_transfer (hi f hf) (fun _ h => h) (fun x hx hxf => Or.inl ⟨x, hx, hxf⟩)
         (fun nj hnj hnf => Or.inr (Or.inr (Or.inl ⟨nj, hnj, hnf⟩))) (fun c hc => Or.inl hc)
-        (fun g hg => by simp only; split <;> simp [hg])
+        (fun g hg => by simp only; split <;> simp [hg]) (keepm rfl)
     · cases h
   | cbCancelled d =>
     simp only [step] at h
     split at h
     · rename_i j hjd
-      obtain ⟨hj, hjdel⟩ := jobOfDel_mem hjd
       split at h
-      · rename_i hdc
-        cases h
+      · cases h
         intro f hf
-        refine kept_transfer (hi f hf) (fun g hg => by simp only; split <;> simp [hg]) ?_
+        refine kept_transfer (hi f hf) (fun _ h => h) ?_
           (fun nj hnj hnf => Or.inr (Or.inr (Or.inl ⟨nj, hnj, hnf⟩))) (fun c hc => Or.inl hc) (fun _ h => h)
+          (fun d' hd' => Or.inl (List.mem_append_left _ hd'))
         intro x hx hxf
         by_cases e : x = j
         · subst e; subst hxf
-          right
-          cases hcf : cancellingF s x.fut with
-          | false =>
-            refine Or.inl ?_
-            simp only [hcf, Bool.false_or]
-            split
-            · rename_i hd; simpa using hd
-            · simp
-          | true =>
-            obtain ⟨c, hc⟩ := cancelling_entry hcf
-            cases c with
-            | scanned found popped =>
-              cases found with
-              | none => exact Or.inr (Or.inr (Or.inr (Or.inl ⟨popped, hc⟩)))
-              | some d0 =>
-                rcases hv.scan x.fut d0 popped hc x hx rfl with h1 | h1
-                · rw [hjdel] at h1; cases h1
-                  exact Or.inr (Or.inr (Or.inr (Or.inr (Or.inr ⟨d, popped, hc, hdc⟩))))
-                · rw [hjdel] at h1; cases h1
-            | delegated r =>
-              cases r with
-              | true => exact Or.inr (Or.inr (Or.inr (Or.inr (Or.inl hc))))
-              | false => exact absurd hdc (hdj d (hv.refd x.fut hc x hx rfl d hjdel))
+          exact Or.inr (Or.inr (Or.inr (Or.inr (Or.inr (Or.inr (Or.inr ⟨d, List.mem_append_right _ (List.mem_singleton.mpr rfl)⟩))))))
         · exact Or.inl ⟨x, (List.mem_erase_of_ne e).mpr hx, hxf⟩
       · cases h
+    · cases h
+  | cbMark f0 d inl =>
+    simp only [step] at h
+    split at h
+    · rename_i hmem
+      have hdc : d ∈ s.delCancelled := mk _ hmem
+      split at h
+      · -- inline: the cancel() of f0 in progress found delegate d, which is cancelled
+        split at h
+        · rename_i d' popped hl
+          split at h
+          · rename_i hdd
+            cases h
+            subst hdd
+            intro f hf
+            refine kept_transfer (hi f hf) (fun _ h => h) (fun x hx hxf => Or.inl ⟨x, hx, hxf⟩)
+              (fun nj hnj hnf => Or.inr (Or.inr (Or.inl ⟨nj, hnj, hnf⟩))) (fun c hc => Or.inl hc) (fun _ h => h) ?_
+            intro d2 hd2
+            by_cases e : (f, d2) = (f0, d')
+            · cases e
+              exact Or.inr (Or.inr (Or.inr (Or.inr (Or.inr (Or.inr (Or.inl ⟨d', popped, lookup_mem _ _ _ hl, hdc⟩))))))
+            · exact Or.inl ((List.mem_erase_of_ne e).mpr hd2)
+          · cases h
+        · cases h
+      · split at h
+        · cases h
+          intro f hf
+          refine kept_transfer (hi f hf) (fun g hg => by simp only; split <;> simp [hg]) (fun x hx hxf => Or.inl ⟨x, hx, hxf⟩)
+            (fun nj hnj hnf => Or.inr (Or.inr (Or.inl ⟨nj, hnj, hnf⟩))) (fun c hc => Or.inl hc) (fun _ h => h) ?_
+          intro d2 hd2
+          by_cases e : (f, d2) = (f0, d)
+          · cases e
+            exact Or.inr (Or.inl (by simp only; split <;> simp_all))
+          · exact Or.inl ((List.mem_erase_of_ne e).mpr hd2)
+        · cases h
     · cases h
   | cbPolicy d r =>
     simp only [step] at h
     have same : ∀ (s'' : St), s''.jobs = s.jobs → s''.done = s.done → s''.submitting = s.submitting → s''.cancelling = s.cancelling →
-        s''.delCancelled = s.delCancelled → s''.submitted = s.submitted → ∀ f ∈ s''.submitted, Kept s'' f := by
-      intro s'' e1 e2 e3 e4 e5 e6 f hf
+        s''.delCancelled = s.delCancelled → s''.submitted = s.submitted → s''.marks = s.marks → ∀ f ∈ s''.submitted, Kept s'' f := by
+      intro s'' e1 e2 e3 e4 e5 e6 e7 f hf
       rw [e6] at hf
       exact kept_transfer (hi f hf) (fun g hg => by rw [e2]; exact hg) (fun x hx hxf => Or.inl ⟨x, by rw [e1]; exact hx, hxf⟩)
         (fun nj hnj hnf => Or.inr (Or.inr (Or.inl ⟨nj, by rw [e3]; exact hnj, hnf⟩))) (fun c hc => Or.inl (by rw [e4]; exact hc))
-        (fun g hg => by rw [e5]; exact hg)
+        (fun g hg => by rw [e5]; exact hg) (fun d hd => Or.inl (by rw [e7]; exact hd))
     split at h
     · split at h
       · split at h
         · split at h
-          · cases h; exact same _ rfl rfl rfl rfl rfl rfl
+          · cases h; exact same _ rfl rfl rfl rfl rfl rfl rfl
           · cases h
-        · cases h; exact same _ rfl rfl rfl rfl rfl rfl
+        · cases h; exact same _ rfl rfl rfl rfl rfl rfl rfl
       · cases h
     · cases h
   | cbRetry d =>
@@ -584,7 +656,7 @@ theorem kept_step (s : St) (a : Act) (s' : St) (i1 : Inv1 s) (hv : CancelView s)
       cases h
       intro f hf
       refine kept_transfer (hi f hf) (fun _ h => h) ?_ (fun nj hnj hnf => Or.inr (Or.inr (Or.inl ⟨nj, hnj, hnf⟩)))
-        (fun c hc => Or.inl hc) (fun _ h => h)
+        (fun c hc => Or.inl hc) (fun _ h => h) (keepm rfl)
       intro x hx hxf
       by_cases e : x = j
       · subst e; exact Or.inl ⟨_, List.mem_append_right _ (List.mem_singleton.mpr rfl), hxf⟩
@@ -597,7 +669,7 @@ theorem kept_step (s : St) (a : Act) (s' : St) (i1 : Inv1 s) (hv : CancelView s)
       cases h
       intro f hf
       refine kept_transfer (hi f hf) (fun g hg => by simp only; split <;> simp [hg]) ?_
-        (fun nj hnj hnf => Or.inr (Or.inr (Or.inl ⟨nj, hnj, hnf⟩))) (fun c hc => Or.inl hc) (fun _ h => h)
+        (fun nj hnj hnf => Or.inr (Or.inr (Or.inl ⟨nj, hnj, hnf⟩))) (fun c hc => Or.inl hc) (fun _ h => h) (keepm rfl)
       intro x hx hxf
       by_cases e : x = j
       · subst e; subst hxf; exact Or.inr (Or.inl (by simp only; split <;> simp_all))
@@ -611,13 +683,14 @@ theorem kept_step (s : St) (a : Act) (s' : St) (i1 : Inv1 s) (hv : CancelView s)
         intro f hf
         exact kept_transfer (hi f hf) (fun _ h => h) (fun x hx hxf => Or.inl ⟨x, hx, hxf⟩)
           (fun nj hnj hnf => Or.inr (Or.inr (Or.inl ⟨nj, hnj, hnf⟩))) (fun c hc => Or.inl (List.mem_append_left _ hc)) (fun _ h => h)
+          (keepm rfl)
       · rename_i j hsome
         obtain ⟨hj, hjf⟩ := jobOfFut_mem hsome
         split at h
         · cases h
           intro f hf
           refine kept_transfer (hi f hf) (fun _ h => h) ?_ (fun nj hnj hnf => Or.inr (Or.inr (Or.inl ⟨nj, hnj, hnf⟩)))
-            (fun c hc => Or.inl (List.mem_append_left _ hc)) (fun _ h => h)
+            (fun c hc => Or.inl (List.mem_append_left _ hc)) (fun _ h => h) (keepm rfl)
           intro x hx hxf
           by_cases e : x = j
           · subst e
@@ -628,7 +701,7 @@ theorem kept_step (s : St) (a : Act) (s' : St) (i1 : Inv1 s) (hv : CancelView s)
         · cases h
           intro f hf
           refine kept_transfer (hi f hf) (fun _ h => h) ?_ (fun nj hnj hnf => Or.inr (Or.inr (Or.inl ⟨nj, hnj, hnf⟩)))
-            (fun c hc => Or.inl (List.mem_append_left _ hc)) (fun _ h => h)
+            (fun c hc => Or.inl (List.mem_append_left _ hc)) (fun _ h => h) (keepm rfl)
           intro x hx hxf
           refine Or.inl ⟨_, List.mem_map_of_mem (f := fun y => if y = j then { y with stop := true } else y) hx, ?_⟩
           split <;> simpa using hxf
@@ -641,33 +714,33 @@ theorem kept_step (s : St) (a : Act) (s' : St) (i1 : Inv1 s) (hv : CancelView s)
         intro c hc
         have := lookup_of_mem _ _ _ hv.keys hc
         rw [hl] at this; cases this; rfl
-      -- futures other than f0 keep their entries
       have other : ∀ (s'' : St) (c0 : CSt), s''.jobs = s.jobs → s''.done = s.done → s''.submitting = s.submitting →
           s''.cancelling = s.cancelling.filter (fun p => p.1 != f0) ++ [(f0, c0)] → (∀ g ∈ s.delCancelled, g ∈ s''.delCancelled) →
-          ∀ f, f ≠ f0 → Kept s f → Kept s'' f := by
-        intro s'' c0 e1 e2 e3 e4 e5 f hne hk
+          s''.marks = s.marks → ∀ f, f ≠ f0 → Kept s f → Kept s'' f := by
+        intro s'' c0 e1 e2 e3 e4 e5 e7 f hne hk
         refine kept_transfer hk (fun g hg => by rw [e2]; exact hg) (fun x hx hxf => Or.inl ⟨x, by rw [e1]; exact hx, hxf⟩)
           (fun nj hnj hnf => Or.inr (Or.inr (Or.inl ⟨nj, by rw [e3]; exact hnj, hnf⟩))) ?_ e5
+          (fun d hd => Or.inl (by rw [e7]; exact hd))
         intro c hc
         refine Or.inl ?_
         rw [e4]
         exact List.mem_append_left _ (List.mem_filter.mpr ⟨hc, by simpa using hne⟩)
       split at h
-      · -- cancel() returned True: the future will be cancelled at cancelEnd
-        have tcase : ∀ (s'' : St), s''.jobs = s.jobs → s''.done = s.done → s''.submitting = s.submitting →
+      · have tcase : ∀ (s'' : St), s''.jobs = s.jobs → s''.done = s.done → s''.submitting = s.submitting →
             s''.cancelling = s.cancelling.filter (fun p => p.1 != f0) ++ [(f0, CSt.delegated true)] →
-            (∀ g ∈ s.delCancelled, g ∈ s''.delCancelled) → s''.submitted = s.submitted → ∀ f ∈ s''.submitted, Kept s'' f := by
-          intro s'' e1 e2 e3 e4 e5 e6 f hf
+            (∀ g ∈ s.delCancelled, g ∈ s''.delCancelled) → s''.submitted = s.submitted → s''.marks = s.marks →
+            ∀ f ∈ s''.submitted, Kept s'' f := by
+          intro s'' e1 e2 e3 e4 e5 e6 e7 f hf
           rw [e6] at hf
           by_cases hne : f = f0
           · subst hne
             exact Or.inr (Or.inr (Or.inr (Or.inr (Or.inl (by rw [e4]; exact List.mem_append_right _ (List.mem_singleton.mpr rfl))))))
-          · exact other s'' _ e1 e2 e3 e4 e5 f hne (hi f hf)
+          · exact other s'' _ e1 e2 e3 e4 e5 e7 f hne (hi f hf)
         split at h
-        · cases h; exact tcase _ rfl rfl rfl rfl (fun _ h => h) rfl
+        · cases h; exact tcase _ rfl rfl rfl rfl (fun _ h => h) rfl rfl
         · split at h
           · cases h
-          · cases h; exact tcase _ rfl rfl rfl rfl (fun g hg => List.mem_append_left _ hg) rfl
+          · cases h; exact tcase _ rfl rfl rfl rfl (fun g hg => List.mem_append_left _ hg) rfl rfl
       · split at h
         · cases h
         · rename_i hnc
@@ -675,23 +748,25 @@ theorem kept_step (s : St) (a : Act) (s' : St) (i1 : Inv1 s) (hv : CancelView s)
           intro f hf
           by_cases hne : f = f0
           · subst hne
-            rcases hi f hf with h | ⟨j, hj, hjf⟩ | ⟨nj, hnj, hnf⟩ | ⟨b', hb'⟩ | h | ⟨d', b', hb', hd'⟩
+            rcases hi f hf with h | ⟨j, hj, hjf⟩ | ⟨nj, hnj, hnf⟩ | ⟨b', hb'⟩ | h | ⟨d', b', hb', hd'⟩ | ⟨d', hd'⟩
             · exact Or.inl h
             · exact kept_job hj hjf
             · exact Or.inr (Or.inr (Or.inl ⟨nj, hnj, hnf⟩))
             · have := huniq _ hb'; cases this
             · have := huniq _ h; cases this
             · have := huniq _ hb'; cases this; exact absurd hd' hnc
-          · exact other { s with cancelling := (s.cancelling.filter (fun p => p.1 != f0)) ++ [(f0, CSt.delegated false)], refused := s.refused ++ [d] } _ rfl rfl rfl rfl (fun _ h => h) f hne (hi f hf)
+            · exact Or.inr (Or.inr (Or.inr (Or.inr (Or.inr (Or.inr ⟨d', hd'⟩)))))
+          · exact other { s with cancelling := (s.cancelling.filter (fun p => p.1 != f0)) ++ [(f0, CSt.delegated false)], refused := s.refused ++ [d] } _ rfl rfl rfl rfl (fun _ h => h) rfl f hne (hi f hf)
     · cases h
   | cancelEnd f0 =>
     simp only [step] at h
     have other : ∀ (s'' : St), s''.jobs = s.jobs → (∀ g ∈ s.done, g ∈ s''.done) → s''.submitting = s.submitting →
-        s''.cancelling = s.cancelling.filter (fun p => p.1 != f0) → s''.delCancelled = s.delCancelled →
+        s''.cancelling = s.cancelling.filter (fun p => p.1 != f0) → s''.delCancelled = s.delCancelled → s''.marks = s.marks →
         ∀ f, f ≠ f0 → Kept s f → Kept s'' f := by
-      intro s'' e1 e2 e3 e4 e5 f hne hk
+      intro s'' e1 e2 e3 e4 e5 e7 f hne hk
       refine kept_transfer hk e2 (fun x hx hxf => Or.inl ⟨x, by rw [e1]; exact hx, hxf⟩)
         (fun nj hnj hnf => Or.inr (Or.inr (Or.inl ⟨nj, by rw [e3]; exact hnj, hnf⟩))) ?_ (fun g hg => by rw [e5]; exact hg)
+        (fun d hd => Or.inl (by rw [e7]; exact hd))
       intro c hc
       refine Or.inl ?_
       rw [e4]
@@ -701,12 +776,12 @@ theorem kept_step (s : St) (a : Act) (s' : St) (i1 : Inv1 s) (hv : CancelView s)
       intro f hf
       by_cases hne : f = f0
       · subst hne; exact Or.inl (by first | (simp only; split <;> simp_all) | (split <;> simp_all))
-      · refine other _ ?_ (fun g hg => by first | (simp only; split <;> simp [hg]) | (split <;> simp [hg])) ?_ ?_ ?_ f hne (hi f hf) <;> rfl
+      · refine other _ ?_ (fun g hg => by first | (simp only; split <;> simp [hg]) | (split <;> simp [hg])) ?_ ?_ ?_ ?_ f hne (hi f hf) <;> rfl
     · cases h
       intro f hf
       by_cases hne : f = f0
       · subst hne; exact Or.inl (by first | (simp only; split <;> simp_all) | (split <;> simp_all))
-      · refine other _ ?_ (fun g hg => by first | (simp only; split <;> simp [hg]) | (split <;> simp [hg])) ?_ ?_ ?_ f hne (hi f hf) <;> rfl
+      · refine other _ ?_ (fun g hg => by first | (simp only; split <;> simp [hg]) | (split <;> simp [hg])) ?_ ?_ ?_ ?_ f hne (hi f hf) <;> rfl
     · rename_i hl
       cases h
       have huniq : ∀ c, (f0, c) ∈ s.cancelling → c = CSt.delegated false := by
@@ -716,14 +791,15 @@ theorem kept_step (s : St) (a : Act) (s' : St) (i1 : Inv1 s) (hv : CancelView s)
       intro f hf
       by_cases hne : f = f0
       · subst hne
-        rcases hi f hf with h | ⟨j, hj, hjf⟩ | ⟨nj, hnj, hnf⟩ | ⟨b', hb'⟩ | h | ⟨d', b', hb', hd'⟩
+        rcases hi f hf with h | ⟨j, hj, hjf⟩ | ⟨nj, hnj, hnf⟩ | ⟨b', hb'⟩ | h | ⟨d', b', hb', hd'⟩ | ⟨d', hd'⟩
         · exact Or.inl h
         · exact kept_job hj hjf
         · exact Or.inr (Or.inr (Or.inl ⟨nj, hnj, hnf⟩))
         · have := huniq _ hb'; cases this
         · have := huniq _ h; cases this
         · have := huniq _ hb'; cases this
-      · exact other { s with cancelling := s.cancelling.filter (fun p => p.1 != f0) } rfl (fun _ h => h) rfl rfl rfl f hne (hi f hf)
+        · exact Or.inr (Or.inr (Or.inr (Or.inr (Or.inr (Or.inr ⟨d', hd'⟩)))))
+      · exact other { s with cancelling := s.cancelling.filter (fun p => p.1 != f0) } rfl (fun _ h => h) rfl rfl rfl rfl f hne (hi f hf)
     · cases h
   | tick t =>
     simp only [step] at h
@@ -731,22 +807,23 @@ theorem kept_step (s : St) (a : Act) (s' : St) (i1 : Inv1 s) (hv : CancelView s)
     · cases h
       intro f hf
       exact kept_transfer (hi f hf) (fun _ h => h) (fun x hx hxf => Or.inl ⟨x, hx, hxf⟩)
-        (fun nj hnj hnf => Or.inr (Or.inr (Or.inl ⟨nj, hnj, hnf⟩))) (fun c hc => Or.inl hc) (fun _ h => h)
+        (fun nj hnj hnf => Or.inr (Or.inr (Or.inl ⟨nj, hnj, hnf⟩))) (fun c hc => Or.inl hc) (fun _ h => h) (keepm rfl)
     · cases h
-
 
 /-- everything together -/
 structure LInv (s : St) : Prop where
   inv : Inv s
   cs : CSub s
   cv : CancelView s
-  kept : Disj s → ∀ f ∈ s.submitted, Kept s f
+  mks : MarksOk s
+  kept : ∀ f ∈ s.submitted, Kept s f
 
 theorem linv_init : LInv init :=
-  ⟨inv_init, by simp [CSub, init], ⟨by simp [init], by simp [init], by simp [init], by simp [init]⟩, by simp [init]⟩
+  ⟨inv_init, by simp [CSub, init], ⟨by simp [init], by simp [init], by simp [init], by simp [init]⟩, by simp [MarksOk, init],
+   by simp [init]⟩
 
 theorem linv_step (s : St) (a : Act) (s' : St) (hi : LInv s) (h : step s a = some s') : LInv s' :=
-  ⟨inv_step s a s' hi.inv h, csub_step s a s' hi.cs h, cview_step s a s' hi.inv.i1 hi.cs hi.cv h,
-   fun hd => kept_step s a s' hi.inv.i1 hi.cv (disj_mono s a s' h hd) (hi.kept (disj_mono s a s' h hd)) h⟩
+  ⟨inv_step s a s' hi.inv h, csub_step s a s' hi.cs h, cview_step s a s' hi.inv.i1 hi.cs hi.cv h, marksok_step s a s' hi.mks h,
+   kept_step s a s' hi.inv.i1 hi.cv hi.mks hi.kept h⟩
 
 end MoreExec.Retry
